@@ -160,15 +160,30 @@ func TestLockContention(t *testing.T) {
 	runs := vt.EnvInt("VERIF_RUNS", 2)
 	cycles := vt.EnvInt("VERIF_CYCLES", 15)
 	seed := vt.Seed()
+	jit := vt.StartJitter()
+	defer jit.Stop()
+	dropped := 0
+	guarded := func(f func()) { // a run during which this process was starved of CPU says nothing about time bounds
+		t0 := time.Now()
+		out.Begin()
+		f()
+		if jit.StarvedSince(t0) {
+			out.Abort()
+			dropped++
+			return
+		}
+		out.Commit()
+	}
 	for r := 0; r < runs; r++ {
 		n := 3 + r%4
-		contention(t, out, "etcd", emk, n, cycles, time.Second, seed+int64(r), 2*r)
-		contention(t, out, "redis", rmk, n, cycles, time.Second, seed+int64(r), 2*r+1)
+		guarded(func() { contention(t, out, "etcd", emk, n, cycles, time.Second, seed+int64(r), 2*r) })
+		guarded(func() { contention(t, out, "redis", rmk, n, cycles, time.Second, seed+int64(r), 2*r+1) })
 	}
 	for r := 0; r < vt.EnvInt("VERIF_CROWDS", 3); r++ {
-		crowd(t, out, "redis", rmk, 12, 2*time.Second, 1000+2*r)
-		crowd(t, out, "etcd", emk, 12, 2*time.Second, 1001+2*r)
+		guarded(func() { crowd(t, out, "redis", rmk, 12, 2*time.Second, 1000+2*r) })
+		guarded(func() { crowd(t, out, "etcd", emk, 12, 2*time.Second, 1001+2*r) })
 	}
+	t.Logf("runs dropped because the process was starved: %d", dropped)
 }
 
 // ---------------------------------------------------------------- C19: loss of the lock
@@ -248,24 +263,41 @@ func TestLockLoss(t *testing.T) {
 	emk, cli := etcdMaker(t)
 	rmk, mr := redisMaker(t)
 	runs := vt.EnvInt("VERIF_RUNS", 2)
+	jit := vt.StartJitter()
+	defer jit.Stop()
+	guarded := func(f func()) {
+		t0 := time.Now()
+		out.Begin()
+		f()
+		if jit.StarvedSince(t0) {
+			out.Abort()
+			return
+		}
+		out.Commit()
+	}
 	for r := 0; r < runs; r++ {
+		r := r
 		ttl := 3 * time.Second
-		lossScenario(t, out, "etcd", emk, func(key string, mark func()) {
-			// the holder's record is the lowest create-revision key under the lock prefix; revoke its lease
-			resp, err := cli.Get(context.Background(), "/__lock__/"+key, clientv3.WithPrefix(), clientv3.WithSort(clientv3.SortByCreateRevision, clientv3.SortAscend))
-			if err != nil || len(resp.Kvs) == 0 {
-				out.Emit(map[string]any{"ev": "LockErr", "c": 1, "what": "find-holder", "err": "no key"})
-				return
-			}
-			mark()
-			cli.Revoke(context.Background(), clientv3.LeaseID(resp.Kvs[0].Lease))
-		}, ttl, 2*r, r%2 == 0)
+		guarded(func() {
+			lossScenario(t, out, "etcd", emk, func(key string, mark func()) {
+				// the holder's record is the lowest create-revision key under the lock prefix; revoke its lease
+				resp, err := cli.Get(context.Background(), "/__lock__/"+key, clientv3.WithPrefix(), clientv3.WithSort(clientv3.SortByCreateRevision, clientv3.SortAscend))
+				if err != nil || len(resp.Kvs) == 0 {
+					out.Emit(map[string]any{"ev": "LockErr", "c": 1, "what": "find-holder", "err": "no key"})
+					return
+				}
+				mark()
+				cli.Revoke(context.Background(), clientv3.LeaseID(resp.Kvs[0].Lease))
+			}, ttl, 2*r, r%2 == 0)
+		})
 		rttl := time.Second
-		lossScenario(t, out, "redis", rmk, func(key string, mark func()) {
-			// let the TTL elapse in real time as well as in miniredis' virtual time
-			time.Sleep(rttl - 100*time.Millisecond)
-			mark()
-			mr.FastForward(rttl + time.Millisecond)
-		}, rttl, 2*r+1, r%2 == 0)
+		guarded(func() {
+			lossScenario(t, out, "redis", rmk, func(key string, mark func()) {
+				// let the TTL elapse in real time as well as in miniredis' virtual time
+				time.Sleep(rttl - 100*time.Millisecond)
+				mark()
+				mr.FastForward(rttl + time.Millisecond)
+			}, rttl, 2*r+1, r%2 == 0)
+		})
 	}
 }
